@@ -63,9 +63,25 @@ def run_c04(ctx):
                 "distinct_nontrivial = distinct (domain, call-kind sequence) histories with >= 2 plan-related calls")
 
 
+def _api_machine(ctx, quick, sim_len, n_sim):
+    """M: the heap-level machine of the object model with its two aliasing designs refuted;
+    G: its behaviours (all of the short ones, simulated long ones) replayed into the library"""
+    import api_machine
+    hashseeds = (0, 1, 2) if quick else tuple(range(16))
+    api_machine.model_check(ctx, 3 if quick else 4)
+    dom, seqs = api_machine.behaviours(ctx, 2 if quick else 3)
+    cases = api_machine.cases_from(dom, seqs, 300000)
+    dom, sims = api_machine.behaviours(ctx, sim_len, simulate=200, seed=ctx.seed + 1)
+    cases += api_machine.cases_from(dom, sims[:n_sim], 400000)
+    tf = api_machine.replay(ctx, cases, hashseeds)
+    ctx.extra["machine_behaviours_replayed"] = len(cases)
+    return tf
+
+
 def run_c07(ctx):
     quick = ctx.quick
     ctx.mc("MC_Plan", {"MaxLen": 3}, ["RunRefines", "ChainHolds"])
+    _api_machine(ctx, quick, 6, 400 if quick else 8000)
     rc = random_hist(ctx, 200 if quick else 4000, 22, base=10000)
     tf = ctx.drive("hist", rc, hashseeds=(0, 1, 2) if quick else tuple(range(16)))
     ctx.validate(tf, {c["id"]: c for c in rc}, driver="hist")
@@ -89,7 +105,11 @@ def run_c07(ctx):
     for line in open(tf):
         snaps += sum(1 for e in json.loads(line)["ev"] if e["c"] == "Snap")
     ctx.extra["snapshots_checked"] = snaps
-    ctx.rule = ("random histories of 22 API calls over one parsed multi-action domain and problem (applicability, apply with "
+    ctx.rule = ("M: MC_Api, the object model as a machine over a heap of mutable containers (copy / apply / re-used operator "
+                "/ ==): every handle keeps the value the semantics dictates (Faithful), the designs that share empty containers "
+                "or alias the operator's scratch fluent are refuted; G: every behaviour of that machine up to 2/3 calls and "
+                "simulated ones of 6 calls replayed into the library with a snapshot of every live handle after each call; "
+                "V: random histories of 22 API calls over one parsed multi-action domain and problem (applicability, apply with "
                 "every flag combination on initial, earlier and later states, re-use of one Operator object, copies, equality, "
                 "plan execution, export, re-parse); after every call the projection of every live state / run and the digest of "
                 "the domain (vocabulary, exported text, effect walk, Domain().types of a fresh Domain) is logged and TLC "
@@ -102,13 +122,15 @@ def run_c07(ctx):
 def run_c14(ctx):
     quick = ctx.quick
     ctx.mc("MC_Plan", {"MaxLen": 3}, ["RunRefines", "ChainHolds"])
+    _api_machine(ctx, quick, 5, 300 if quick else 6000)
     rc = random_hist(ctx, 200 if quick else 4000, 20, base=20000)
     for c in rc:
         c["weights"] = "state"
     tf = ctx.drive("hist", rc, hashseeds=(0, 1, 2) if quick else tuple(range(16)))
     ctx.validate(tf, {c["id"]: c for c in rc}, driver="hist")
     _stats(tf, ctx, {"CopyState", "StateEq", "Apply"})
-    ctx.rule = ("random histories in which states are reached by the problem parser, by successors of typed actions (facts "
+    ctx.rule = ("M/G: MC_Api (see C07) - its behaviours include every pattern of copy / == / apply up to 2/3 calls; "
+                "V: random histories in which states are reached by the problem parser, by successors of typed actions (facts "
                 "re-added with narrower type annotations), by copies and by the trajectory parser; every == answer is judged "
                 "against the specification's state equality, every copy and later snapshot against the stored value. "
                 "distinct_nontrivial = distinct histories with >= 2 state-level calls")
